@@ -12,3 +12,5 @@ import AGV.Props.C01
 #print axioms AGV.Props.C01.c01_collect_spread_once
 #print axioms AGV.Props.C01.c01_data_partial_nodup
 #print axioms AGV.Props.C01.c01_data_partial_nodup_example
+#print axioms AGV.Props.C01.c01_create_value_object_groups
+#print axioms AGV.Props.C01.c01_repeated_key_error_repaired_example
